@@ -11,6 +11,7 @@ package main
 
 import (
 	"context"
+	"encoding/json"
 	"fmt"
 	"math/big"
 	"os"
@@ -109,6 +110,9 @@ func idsFor(P int) []uuid.UUID {
 	}
 	// boundary ids are ids like any other: the all-zero and the all-ones UUID
 	out = append(out, uuid.Nil, uuid.UUID{0xff, 0xff, 0xff, 0xff, 0xff, 0xff, 0xff, 0xff, 0xff, 0xff, 0xff, 0xff, 0xff, 0xff, 0xff, 0xff})
+	// halves whose sum passes 2^64 (a formula that adds before it reduces wraps there), with residues that are not zero
+	max := ^uint64(0)
+	out = append(out, world.ID(1, max), world.ID(max-1, max-1), world.ID(5, max-2))
 	return out
 }
 
@@ -136,6 +140,12 @@ func (y *sys) runThread(name string, f func()) string {
 type def struct{}
 
 func (def) Pick(s *vrt.Sched, alts []vrt.Alt, costs []int) int { return 0 }
+
+// rev is the opposite of the default schedule: the last enabled alternative first (threads started later run earlier,
+// whatever they build completes in the opposite order).
+type rev struct{}
+
+func (rev) Pick(s *vrt.Sched, alts []vrt.Alt, costs []int) int { return len(alts) - 1 }
 
 func newSys(c sysCase) (*sys, string) {
 	fakes.Reset()
@@ -423,6 +433,103 @@ func systemCase(run *ev.Run, c sysCase) (calls int) {
 	} else if restoreErr != "" {
 		bad("owner-changes-across-restart", restoreErr, hist)
 	}
+	// the same construction under the opposite schedule (whatever runs concurrently inside it completes in the other
+	// order): another node, or this node after a restart, is exactly that
+	var rebuilt *storage.Dataset
+	done := false
+	y.s.Spawn("n1/rebuild-under-the-opposite-schedule", true, func() {
+		nd := y.nodes[0]
+		m2 := proto.Clone(y.meta).(*pb.Dataset)
+		var err error
+		rebuilt, err = storage.VerifNewDataset(uuid.FromBytesOrNil(y.meta.Id), *m2, nd.DB, nd.Transport, nd.Conn, nd.DM)
+		if err != nil {
+			panic(err)
+		}
+		done = true
+	})
+	y.s.Run(rev{}, nil)
+	if t := y.s.Panicked(); t != nil || !done {
+		bad("restart-probe-wedged-or-panicked", "rebuilding the Dataset under the opposite schedule did not finish", hist)
+		return y.calls
+	}
+	for _, id := range ids {
+		if o := rebuilt.VerifPartition(rebuilt.VerifPartitionIndexFor(id)).Id().String(); o != owners[id] {
+			bad("owner-changes-across-restart", fmt.Sprintf("a Dataset rebuilt from the same descriptor under another schedule routes id %x to %s, before %s", id[:3], o, owners[id]), hist)
+			return y.calls
+		}
+	}
+	// a partition without any replica (replication factor 1, its node has left, the replacement is not assigned yet): a
+	// write for one of its ids through any node must fail - not crash the node, not land elsewhere; once a replica is
+	// assigned again the id is absent and can be stored, and is then found from everywhere
+	if len(c.Placement[P-1]) == 1 {
+		victim := P - 1
+		gone := c.Placement[victim][0]
+		var vid uuid.UUID
+		for _, id := range ids {
+			if int(utils.UuidMod(id, uint64(P))) == victim {
+				vid = id
+				break
+			}
+		}
+		change := func(add bool, node uint64, seq uint64) string {
+			t := pb.DatasetPartitionNodesChangeType_DatasetPartitionNodesChangeRemoveNode
+			if add {
+				t = pb.DatasetPartitionNodesChangeType_DatasetPartitionNodesChangeAddNode
+			}
+			cdata, _ := proto.Marshal(&pb.DatasetPartitionNodesChange{Type: t, DatasetId: y.meta.Id, PartitionId: y.meta.Partitions[victim].Id, NodeId: node})
+			ch, _ := proto.Marshal(&pb.DatasetManagerChange{Type: pb.DatasetManagerChangeType_DatasetManagerUpdatePartitionNodes, NotificationId: world.ID(0x7700+seq, 3).Bytes(), Data: cdata})
+			for _, nd := range y.nodes {
+				nd := nd
+				y.calls++
+				if te := y.runThread(fmt.Sprintf("n%d/catalogue%d", nd.ID, y.calls), func() {
+					if err := nd.DM.VerifApply(ch); err != nil {
+						panic(err)
+					}
+				}); te != "" {
+					return te
+				}
+			}
+			return ""
+		}
+		hist = append(hist, fmt.Sprintf("catalogue: partition %d loses its only replica n%d", victim, gone))
+		if te := change(false, gone, 1); te != "" {
+			bad("write-path-wedged-or-panicked", "replica removal: "+te, hist)
+			return y.calls
+		}
+		for e0 := 0; e0 < n; e0++ {
+			// a search of the whole dataset cannot reach that partition: an error, not a crash and not a partial answer
+			var serr error
+			var sres index.SearchResult
+			hist = append(hist, fmt.Sprintf("Search via n%d while partition %d has no replica", e0+1, victim))
+			y.calls++
+			if te := y.runThread(fmt.Sprintf("n%d/call%d", e0+1, y.calls), func() {
+				sres, serr = y.nodes[e0].Dataset(y.meta).Search(context.Background(), []float32{1, 2}, 3)
+			}); te != "" {
+				bad("write-path-wedged-or-panicked", fmt.Sprintf("%s: %s", hist[len(hist)-1], te), hist)
+				return y.calls
+			}
+			if serr == nil {
+				bad("search-succeeds-without-a-partition", fmt.Sprintf("%s returned %d items and no error", hist[len(hist)-1], len(sres)), hist)
+				return y.calls
+			}
+			for _, path := range []string{"Insert", "BatchInsert", "Update", "Remove"} {
+				hist = append(hist, fmt.Sprintf("%s(%x) via n%d while partition %d has no replica", path, vid[:3], e0+1, victim))
+				got, te := y.write(path, e0, vid, []float32{7, 7})
+				if te != "" {
+					bad("write-path-wedged-or-panicked", fmt.Sprintf("%s: %s", hist[len(hist)-1], te), hist)
+					return y.calls
+				}
+				if got == "" {
+					bad("write-acknowledged-by-a-partition-without-replicas:"+path, fmt.Sprintf("%s returned success", hist[len(hist)-1]), hist)
+					return y.calls
+				}
+				if have := y.holders(vid); len(have) != 0 {
+					bad("item-stored-outside-owner-replicas:"+path, fmt.Sprintf("after %s the id is held by %v although its owner partition %d has no replica", hist[len(hist)-1], have, victim), hist)
+					return y.calls
+				}
+			}
+		}
+	}
 	return y.calls
 }
 
@@ -521,6 +628,21 @@ func main() {
 	world.Quiet()
 	if len(os.Args) > 2 && os.Args[1] == "--replay" {
 		// sequential cases are deterministic: the replay file names the failing case; schedules replay below
+		var f struct {
+			Replay struct {
+				Case *sysCase `json:"case"`
+			} `json:"replay"`
+		}
+		if b, err := os.ReadFile(os.Args[2]); err == nil && json.Unmarshal(b, &f) == nil && f.Replay.Case != nil {
+			run := ev.Start("C10", "model_checking")
+			systemCase(run, *f.Replay.Case)
+			if run.NewViolations() > 0 {
+				fmt.Printf("VIOLATION property=%s replay=%s\n  system case %+v\n", ev.As("C10"), os.Args[2], *f.Replay.Case)
+				os.Exit(1)
+			}
+			fmt.Println("replay: property held")
+			return
+		}
 	}
 	before := func(run *ev.Run) ev.Coverage {
 		evals, distinct := functionLevel(run)
